@@ -947,8 +947,10 @@ def closure_gradient_rules(run, db):
     SFQ = 'prysm.x.raytracing.surfaces.'
     ci = db.cls(SFQ + 'Surface')
     init = db.method(ci, '__init__')
-    facts = [(nm, m) for nm, m in sorted(ci.methods.items()) if 'classmethod' in m.decorators and 'FFp' in {n.name for n in ast.walk(m.node) if isinstance(n, ast.FunctionDef)} or
-             ('classmethod' in m.decorators and any(isinstance(c, ast.Call) and isinstance(c.func, ast.Attribute) and isinstance(c.func.value, ast.Name) and c.func.value.id == 'cls' for c in ast.walk(m.node)))]
+    # factories: classmethods that define a closure (whatever it is called) or go through another factory of the class
+    facts = [(nm, m) for nm, m in sorted(ci.methods.items()) if 'classmethod' in m.decorators and
+             (any(isinstance(n, ast.FunctionDef) and n is not m.node for n in ast.walk(m.node)) or
+              any(isinstance(c, ast.Call) and isinstance(c.func, ast.Attribute) and isinstance(c.func.value, ast.Name) and c.func.value.id == m.params[0] for c in ast.walk(m.node)))]
     if len(facts) < 3:
         raise AnalysisError('Surface: fewer than three factories that build a sag / slope closure (%s)' % [nm for nm, _ in facts])
     n_ok = 0
